@@ -149,6 +149,8 @@ def apply_build(optic, op):
                 is_polarized=s['is_polarized'], Ex=s.get('Ex'),
                 Ey=s.get('Ey'), phase_x=s.get('phase_x'),
                 phase_y=s.get('phase_y')))
+    elif o == 'set_telecentric':
+        optic.obj_space_telecentric = bool(op['value'])
     elif o == 'sample':
         raise ValueError('sample lenses are built by new_lens')
     else:
